@@ -838,7 +838,7 @@ impl Monitor for Manip {
     fn rule(&self) -> String {
         match self.0 {
             Which::C04 => "random call histories (5-40 calls, whole mutating API, arguments = any live node of any kind in any tree, biased to related nodes) over forests of 2-4 trees, invariant walker + shadow handle table after every call; plus every (operation, node, node) triple on a catalogue of small start states; plus one slot-churn history. Non-trivial = history with >= 3 executed calls; distinct by hash of start forest + call list".into(),
-            Which::C05 => "random histories of precondition-satisfying calls compared with the ordered-forest model after every call (consolidation fixed per history), plus every precondition-satisfying (operation, node, node) triple on the small-state catalogue. Non-trivial = >= 3 executed calls; distinct by hash of start forest + call list".into(),
+            Which::C05 => "random histories of precondition-satisfying calls compared with the ordered-forest model after every call (consolidation fixed per history), plus every precondition-satisfying (operation, node, node) triple on the small-state catalogue; on the catalogue states built with consolidation off and then switched on, every remove / detach / move-away of a node that has a text node on either side (the two must be merged, the parent's string value must be that of the children that stay). Non-trivial = >= 3 executed calls; distinct by hash of start forest + call list".into(),
             Which::C06 => "random histories with arbitrary live arguments; before/after snapshot of every live node's value, relations and every root's serialisation around each refused call; panics attributed by location; plus every (operation, node, node) triple on the small-state catalogue. Non-trivial = >= 3 executed calls; distinct by hash of start forest + call list".into(),
         }
     }
@@ -850,6 +850,7 @@ impl Monitor for Manip {
                 ("exhaustive.calls", 50_000),
                 ("consolidation.run2", 500),
                 ("consolidation.run3", 50),
+                ("mixed_take_out.merged", 400),
                 ("call.replace.ok", 100),
                 ("call.element_unwrap.ok", 100),
                 ("call.insert_after.ok", 100),
